@@ -62,16 +62,16 @@ PROPS["C14"] = {
 PROPS["C20"] = {
     "modules": ["OxiaVerif.Props.C20", "OxiaVerif.Props.C20Stream"],
     "facts": ["batcherRearmsTimerAfterSplit", "multiShardGetReturnsAfterError", "readBatchFreshResponsePerAttempt", "writeBatchHandlePositional",
-              "writeStreamKeepsTimedOutRequests"],
+              "writeStreamKeepsTimedOutRequests", "rangeScanClosesChannelOnAllPaths"],
     "trusted_base": [KERNEL, EXTRACT, CORR,
                      "Go channels, time.Timer and the backoff library: the run loop is modelled as a fold over the events it selects (call taken from the channel, timer fired, close)",
                      "a fake executor (harness) stands for the gRPC streams of the batches; the write stream wrapper (write_stream.go) runs over a stream of the harness whose 'leader' answers in order; list fan-out is not modelled"],
     "assumptions": ["Add is atomic with respect to Close (the check of the closed flag and the channel send are one event); an Add racing with Close is outside the model",
                     "every shard delivers its range-scan results in key order and without error (the error short-cut of the merge is not modelled)",
                     "the server answers with response lists of the request's shape (C12)"],
-    "rule": "generated scripts on the real batchers (oxia/batch + internal/batch through verif hooks) with a fake executor that tags each answer with the request it answers: batcher scripts (1-12 events: calls of 8-300 bytes, timer idles, close; linger 0 or 150 ms; max requests 1-6 or unlimited; byte limit 40-240; read or write batcher), single write batches with mixed put/delete/delete-range and scripted executor failures (retriable, fatal, timeout), read batches whose stream breaks after a prefix, multi-shard comparison gets (1-5 shards, all five comparison types, found/not-found/error per shard, random arrival order), k-way merges (1-5 shards, slash-ordered keys, occasional duplicates), write-stream scripts (2-6 requests, callers that give up after 60 ms, responses, a broken stream) on the real stream wrapper. Oracle: each call exactly one callback with its own tag; executed batches = completed calls in order, within limits; multi-get completes once with the extremal key or the error, no panic; merge sorted and a permutation. Wall-clock dependent scripts whose Adds took too long are marked not comparable (~).",
+    "rule": "generated scripts on the real batchers (oxia/batch + internal/batch through verif hooks) with a fake executor that tags each answer with the request it answers: batcher scripts (1-12 events: calls of 8-300 bytes, timer idles, close; linger 0 or 150 ms; max requests 1-6 or unlimited; byte limit 40-240; read or write batcher), single write batches with mixed put/delete/delete-range and scripted executor failures (retriable, fatal, timeout), read batches whose stream breaks after a prefix, multi-shard comparison gets (1-5 shards, all five comparison types, found/not-found/error per shard, random arrival order), k-way merges (1-5 shards, slash-ordered keys, occasional duplicates), write-stream scripts (2-6 requests, callers that give up after 60 ms, responses, a broken stream) on the real stream wrapper, range scans over one or several shards with failing requests and broken streams (the result channel must get closed). Oracle: each call exactly one callback with its own tag; executed batches = completed calls in order, within limits; multi-get completes once with the extremal key or the error, no panic; merge sorted and a permutation. Wall-clock dependent scripts whose Adds took too long are marked not comparable (~).",
     "level_text": "Machine-checked proof (Lean 4), for every event sequence and configuration of the batcher loop: every submitted call has exactly one outcome (list equality with the submission order, not just counts); executed batches are consecutive runs of the call stream, non-empty, within the request and byte limits; an open batch always has an armed timer (given the re-arm fact) and the timer completes it. Write batch: each call gets the answer to its own request for every mix of kinds (zip/filter lemma + permutation). Read batch: fresh response per attempt (fact) implies positional answers after any number of broken streams. Multi-shard get: for every permutation of arrivals and every error placement, exactly one completion, no panic, FLOOR/LOWER maximal and CEILING/HIGHER minimal under the slash order (uses the C11 order laws). k-way merge: permutation of the inputs and globally sorted, by induction on fuel. Write stream: for every order of sends, callers that give up, responses and a break, a caller that gets a response gets the response to its own request (C20_stream_response_is_own, invariant: the wrapper's queue and the leader's unanswered requests are the same requests in the same order), given that a request whose caller gave up keeps its place (fact; proved counterexample otherwise). Tied to the code by five regenerated facts and differential runs.",
-    "level_note": "Trusted: Lean kernel; extractor rules; Go runtime (channels/timers) abstracted into events; fake executor. Not modelled: Add/Close race, list fan-out, merge error short-cut. Fixed D-24 (second shard error panicked).",
+    "level_note": "Trusted: Lean kernel; extractor rules; Go runtime (channels/timers) abstracted into events; fake executor. Not modelled: Add/Close race, list fan-out, merge error short-cut. Fixed D-24 (second shard error panicked) and D-49 (a single-shard range scan whose request fails never closed its result channel).",
     "technique": "Lean 4 proof (event-fold invariants, permutation/sortedness induction) + regenerated facts + differential correspondence",
     "design_ref": "DESIGN.md section 6 C20",
 }
@@ -79,7 +79,7 @@ PROPS["C20"] = {
 NOT_APPLICABLE = {}
 
 # verif-guarded hook commits in /repo (add-only)
-HOOK_COMMITS = ["fd0e965", "d11cf72", "46739fb", "981ad0e", "643526d", "e05858a", "edb0adb", "7d5379a", "42d08ad", "d63880c", "c52c40e", "cfdc2ec", "ee229a3", "82ee13c", "c8aaeb5", "daf1a1c", "2ce3bf7"]
+HOOK_COMMITS = ["fd0e965", "d11cf72", "46739fb", "981ad0e", "643526d", "e05858a", "edb0adb", "7d5379a", "42d08ad", "d63880c", "c52c40e", "cfdc2ec", "ee229a3", "82ee13c", "c8aaeb5", "daf1a1c", "2ce3bf7", "5773edf"]
 
 PROPS["C09"] = {
     "modules": ["OxiaVerif.Props.C09", "OxiaVerif.Props.C09OnTree"],
